@@ -194,7 +194,9 @@ macro_rules! impl_select_zero_small {
                     inventory.push(0);
                     inventory_begin.push(0);
                 } else {
-                    inventory_begin.push(small_counters.as_ref().len());
+                    // A sentinel larger than every inventory index (the number of
+                    // words is not: there can be more inventory entries than words)
+                    inventory_begin.push(inventory.len());
                 }
 
                 // assert_eq!(inventory.len(), inventory_size + 1);
